@@ -307,14 +307,14 @@ Proof.
       pose proof (update_bounds_idx (ps_proto ps) values (ps_bounds ps) Hdt Hv Hbi) as Hb1.
       rewrite Hub in Hb1. exact Hb1.
     + (* PcFinalize *)
-      destruct (pc_finalize_step ps l Hsub Hlok) as [(Hfin & H1)|(Hfin & l2 & ps2 & d & H1 & _ & _ & _ & Hdd)];
+      destruct (pc_finalize_step ps l Hsub Hlok) as [(Hfin & H1)|(Hfin & Hcl & l2 & ps2 & d & H1 & _ & _ & _ & Hdd)];
         rewrite run_bind, H1 in Hrun; cbn [fst snd wret wrun_spec] in Hrun; inversion Hrun; subst.
       * apply (Hsame _ eq_refl).
       * unfold meta_inv; cbn [set_sub ws_exts ws_root ws_pcs ws_imgs ws_sub].
         split; [exact He|]. split; [exact Hr|].
         split; [apply Forall_app; split; [exact Hp|constructor; [apply finish_good; assumption|constructor]]|].
         split; [exact Hi|].
-        unfold pc_finalize in H1. rewrite Hfin in H1. rewrite run_bind, wrun_spec_wtry in H1.
+        unfold pc_finalize in H1. rewrite Hfin, Hcl in H1. cbn [negb] in H1. rewrite run_bind, wrun_spec_wtry in H1.
         destruct (snd (wrun_spec (pcw_finalize (ps_w ps)) l)) as [[[w2 off] cnt]|k|]; cbn [fst snd wret wrun_spec] in H1;
           inversion H1; subst. cbn [ps_desc ps_proto ps_bounds].
         split; [apply desc_taken_good; exact Hd|]. split; [destruct (ps_desc ps); cbn in *; exact Hpr|].
